@@ -356,7 +356,18 @@ impl<'a> Walker<'a> {
         for d in n.descendants(db) {
             if d.kind(db) == SyntaxKind::Trivia {
                 let before = self.out.len();
+                // trailing trivia of a terminal with text: comments there stand behind a token
+                let mut trailing = false;
+                if let Some(term) = d.parent(db) {
+                    let kids = term.get_children(db);
+                    if kids.len() == 3 && kids[2] == d && !kids[1].get_text(db).is_empty() {
+                        trailing = true;
+                        self.last_code_token = Some(kids[1].get_text(db).to_string());
+                    }
+                }
+                self.in_trailing = trailing;
                 self.trivia(&d);
+                self.in_trailing = false;
                 // keep only comment words
                 let tail: Vec<Item> = self.out.drain(before..).filter(|x| matches!(x, Item::Cw(..))).collect();
                 self.out.extend(tail);
